@@ -374,7 +374,7 @@ def elastic_samples(vd, rnd, tier):
     # the documented special parameter values, all combinations: poisson in {-1, 0, 1} x mindist in {0, default 10e3, 1}
     for nu in SPECIAL_NU:
         for md in (0.0, 10e3, 1.0):
-            rs = [0.5, 1e4] if tier == "quick" else [1e-3, 0.5, 1.0, E_DOUBLE, 30.0, 1e4, 1e6]
+            rs = [[0.5], [1e4]][(k // 1) % 2] if tier == "quick" else [1e-3, 0.5, 1.0, E_DOUBLE, 30.0, 1e4, 1e6]
             for r in rs:
                 k += 1
                 dx, dy = _directions(rnd, r * rnd.uniform(0.7, 1.4))[3 + k % 2]
@@ -463,7 +463,7 @@ def checker_samples(vd, rnd, tier):
 # ---------------------------------------------------------------------------
 DTYPES = [None, "float64", "float32"]
 # (east offset, north offset) in units of the spacing: 0 .. 1e7
-OFFSETS = [(0.0, 0.0), (1e3, -2e3), (5e5, 7.5e6), (-3.2e5, 4.1e6), (1e7, 1e7), (64.0, 1e5)]
+OFFSETS = [(0.0, 0.0), (5e5, 7.5e6), (1e3, -2e3), (-3.2e5, 4.1e6), (1e7, 1e7), (64.0, 1e5)]
 F32 = 2.0 ** -22
 
 
@@ -492,7 +492,7 @@ def dtype_samples(vd, rnd, tier):
     """certificates for entries of jacobian(..., dtype=...): for float32 the exact kernel of the DOUBLE coordinates must be met
     within the double-precision budget + 2^-22 |entry| (a few single-precision ulps), never looser"""
     certs = []
-    n = 18 if tier == "quick" else 90
+    n = 12 if tier == "quick" else 90
     for k in range(n):
         dt = DTYPES[k % 3]
         vector = bool((k // 3) % 2)
